@@ -208,9 +208,13 @@ impl<'p> Machine<'p> {
     }
 
     fn items_len(&self, line: usize) -> usize {
-        let n = self.prog.lines[line].stmts.len();
+        let stmts = &self.prog.lines[line].stmts;
+        let n = stmts.len();
         if n == 0 {
             0
+        } else if n >= 2 && matches!(stmts[n - 1], Stmt::Empty) {
+            // a trailing `:`: the separator is there, nothing follows it
+            2 * n - 2
         } else {
             2 * n - 1
         }
@@ -484,6 +488,7 @@ impl<'p> Machine<'p> {
         self.stmts_executed += 1;
         self.kinds_executed.insert(s.kind());
         match s {
+            Stmt::Empty => Ok(()),
             Stmt::Rem(_) => {
                 // the rest of the line is part of the remark token
                 Ok(())
